@@ -23,6 +23,8 @@ type Solver struct {
 	trace  io.Writer
 	sync   int
 	timeMs int
+
+	lastWasError bool
 }
 
 var (
@@ -32,6 +34,7 @@ var (
 	statSolverErr int64
 	statRoundTripNs int64
 	statSendNs    int64
+	statRetried   int64
 )
 
 func NewSolver(kind string, timeoutMs int) (*Solver, error) {
@@ -114,8 +117,25 @@ func (s *Solver) roundTrip(cmd string) []string {
 	}
 }
 
-// CheckSat returns "sat", "unsat" or "unknown" (errors count as unknown).
+// CheckSat returns "sat", "unsat" or "unknown" (errors count as unknown). An "unknown" that is a plain time-out is
+// retried once with four times the budget (a loaded machine must not turn a decided query into an inconclusive run).
 func (s *Solver) CheckSat() string {
+	res := s.checkSatOnce()
+	if res == "unknown" && !s.dead && !s.lastWasError && s.kind != "cvc5" {
+		base := s.timeMs
+		s.SetTimeout(base * 4)
+		res = s.checkSatOnce()
+		s.SetTimeout(base)
+		atomic.AddInt64(&statRetried, 1)
+	}
+	if res == "unknown" {
+		atomic.AddInt64(&statUnknown, 1)
+	}
+	return res
+}
+
+func (s *Solver) checkSatOnce() string {
+	s.lastWasError = false
 	t0 := time.Now()
 	// hard wall-clock limit: z3's own :timeout is not honoured inside some tactics
 	hard := time.Duration(s.timeMs)*time.Millisecond*3 + 5*time.Second
@@ -137,6 +157,7 @@ func (s *Solver) CheckSat() string {
 	res := "unknown"
 	for _, l := range lines {
 		if strings.HasPrefix(l, "(error") {
+			s.lastWasError = true
 			atomic.AddInt64(&statSolverErr, 1)
 			if s.trace != nil {
 				io.WriteString(s.trace, "; ERROR "+l+"\n")
@@ -146,9 +167,6 @@ func (s *Solver) CheckSat() string {
 		if l == "sat" || l == "unsat" || l == "unknown" {
 			res = l
 		}
-	}
-	if res == "unknown" {
-		atomic.AddInt64(&statUnknown, 1)
 	}
 	return res
 }
